@@ -3,7 +3,12 @@
 # tie:    correspondence: extracted model  vs  every call form compiled from /repo's current tree
 #         (+ the raw mpz primitives vs the trusted GmpSpec section of the model)
 # search: python big-integer oracle implementing the four conventions (trunc / floor / ceil / euclid)
-import json, os, sys
+# phase 3: the extracted driver dispatches through the overload table coq/C02/Table.v (the one the theorems quantify over); the
+#         check compares that table with its own list of forms / oracle kinds, reads the GMP primitive each overload calls and
+#         the casts of the inline forwarders from VERIF_REPO's current source and compares them with the model's definitions,
+#         has the compiled harness print the configuration constants and run the raw C conversions of the CInt layer, runs every
+#         destination-bearing form from four different non-zero destinations, and sweeps a seed-independent word-limit grid.
+import json, os, re, sys
 import vf
 
 AREA = "C02"
@@ -35,6 +40,8 @@ RANGES = {"i64": (-2**63, 2**63 - 1), "u64": (0, 2**64 - 1), "i32": (-2**31, 2**
           "f24": (-2**24, 2**24),
           "dbl": (-(2**64 - 2**11), 2**64 - 2**11),        # integer-valued doubles l with |l| < 2^64
           "dblx": (-(2**68 - 2**15), 2**68 - 2**15),       # K = 16 l for doubles l with 4 fractional bits, 1 <= |trunc l| < 2^64
+          "i64s": (-2**63 + 1, 2**63 - 1),                  # int64_t without INT64_MIN (std::abs / unary minus defined)
+          "udblx": (0, 2**68 - 2**15),                     # K = 16 x for non-negative doubles x < 2^64 with 4 fractional bits
           "Z": None}
 
 def fix53(v):
@@ -45,7 +52,7 @@ def fix53(v):
     return a if v >= 0 else -a
 
 def fix_type(v, t):
-    if t in ("dbl", "dblx"):
+    if t in ("dbl", "dblx", "udblx"):
         v = fix53(v)
         if t == "dblx" and abs(v) < 16:
             v = 16 + abs(v) if v >= 0 else -16 - abs(v)
@@ -53,7 +60,7 @@ def fix_type(v, t):
 
 def fits(v, t):
     lo, hi = RANGES[t]
-    if t in ("dbl", "dblx") and (fix53(v) != v or (t == "dblx" and abs(v) < 16)):
+    if t in ("dbl", "dblx", "udblx") and (fix53(v) != v or (t == "dblx" and abs(v) < 16)):
         return False
     return lo <= v <= hi
 
@@ -86,7 +93,17 @@ SPEC = {
     "cr_w": lambda n, d: [crem(n, d), abs(crem(n, d))], "fr_w": lambda n, d: [frem(n, d), frem(n, d)],
     "tr_x16": lambda n, d: [trem(n, (abs(d) // 16) * (1 if d > 0 else -1))],      # operator%(double l), l = d/16: by trunc(l)
     "isdiv": lambda n, d: [1 if (n == 0 if d == 0 else n % d == 0) else 0],     # b = 0 divides only 0
+    # raw C conversions (CInt layer of the model), second operand unused
+    "c.u64": lambda n, d: [n % 2**64], "c.i64": lambda n, d: [wrap(n, "i64")], "c.i32": lambda n, d: [wrap(n, "i32")],
+    "c.i16": lambda n, d: [wrap(n, "i16")], "c.abs": lambda n, d: [abs(n)], "c.neg": lambda n, d: [(-n) % 2**64],
+    "c.dbl": lambda n, d: [int(float(n))], "c.trunc16": lambda n, d: [n // 16],
 }
+# configuration the model is written for: what the compiled harness must print (LP64, 64-bit limbs, IEEE binary64)
+CFG = {"cfg.sizeof_long": 8, "cfg.givaro_sizeof_long": 8, "cfg.limb_bits": 64, "cfg.ulong_max": 2**64 - 1, "cfg.i64_min": -2**63,
+       "cfg.i64_max": 2**63 - 1, "cfg.u64_max": 2**64 - 1, "cfg.i32_min": -2**31, "cfg.u32_max": 2**32 - 1, "cfg.i16_min": -2**15,
+       "cfg.u16_max": 2**16 - 1, "cfg.dbl_mant_dig": 53, "cfg.dbl_round_nearest": 1, "cfg.long_is_int64": 1}
+for _k, _v in CFG.items():
+    SPEC[_k] = (lambda v: (lambda n, d: [v]))(_v)
 
 # form -> (spec kind, type of n, type of d, type of a word result or None)
 F = {}
@@ -128,9 +145,9 @@ form("mod.u", "emod", "Z", "u32"); form("dom.mod", "emod"); form("dom.modin", "e
 # % (truncated remainder)
 form("op%=.I", "tr"); form("op%=.ul", "tr", "Z", "u64"); form("op%=.l", "tr", "Z", "i64"); form("op%=.u", "tr", "Z", "u32")
 form("op%=.i", "tr", "Z", "i32"); form("op%=.T", "tr"); form("op%=.Ts", "tr", "Z", "i16")
-form("op%.I", "tr"); form("op%.ul", "tr", "Z", "u64", "i64"); form("op%.l", "tr", "Z", "i64", "i64")
-form("op%.u", "tr", "Z", "u32", "i32"); form("op%.i", "tr", "Z", "i32", "i32"); form("op%.us", "tr", "Z", "u16", "i16")
-form("op%.Ts", "tr", "Z", "i16", "i16"); form("op%.d", "tr", "Z", "dbl", "dbl_i64"); form("op%.dx", "tr_x16", "Z", "dblx", "dbl_i64")
+form("op%.I", "tr"); form("op%.ul", "tr", "Z", "u64", "i64"); form("op%.l", "tr", "Z", "i64")
+form("op%.u", "tr", "Z", "u32", "i32"); form("op%.i", "tr", "Z", "i32"); form("op%.us", "tr", "Z", "u16", "i16")
+form("op%.Ts", "tr", "Z", "i16"); form("op%.d", "tr", "Z", "dbl", "dbl_i64"); form("op%.dx", "tr_x16", "Z", "dblx", "dbl_i64")
 form("op%.Tf", "tr", "Z", "f24")
 # small integer types: promotions to int and template instantiations
 form("op/.s", "tq", "Z", "i16"); form("op/.us", "tq", "Z", "u16"); form("op/.c", "tq", "Z", "i8")
@@ -140,6 +157,27 @@ form("mod.s", "emod", "Z", "i16"); form("mod.us", "emod", "Z", "u16"); form("mod
 form("div.s", "tq", "Z", "i16"); form("div.c", "tq", "Z", "i8")
 form("w%I.i", "tr", "i32", "Z"); form("w%I.l", "tr", "i64", "Z"); form("w%I.u", "tr", "u32", "Z"); form("w%I.ul", "tr", "u64", "Z")
 form("dom.isDivisor", "isdiv")
+# phase 3: further template instances / promotions, long / unsigned long operands, the non-virtual base class of ZRing<Integer>,
+# two-call sequences on one destination object
+form("op%.Tc", "tr", "Z", "i8"); form("op%.Tuc", "abs_tr", "Z", "u8"); form("op/=.Tf", "tq", "Z", "f24"); form("op%=.Tf", "tr", "Z", "f24")
+form("mod.uc", "emod", "Z", "u8"); form("w/I.s", "tq", "i16", "Z"); form("w%I.us", "tr", "u16", "Z")
+form("op/.L", "tq", "Z", "i64"); form("op%.UL", "tr", "Z", "u64", "i64"); form("mod.L", "emod", "Z", "i64"); form("divexact.qUL", "exact", "Z", "u64")
+form("zbase.div", "tq"); form("zbase.divin", "tq"); form("zbase.mod", "tr"); form("zbase.modin", "tr")
+form("seq.mod", "emod"); form("seq.mod.ul", "emod", "Z", "u64"); form("seq.mod.l", "emod", "Z", "i64")
+form("seq.div", "tq"); form("seq.div.ul", "tq", "Z", "u64"); form("seq.div.l", "tq", "Z", "i64")
+form("seq.divexact", "exact"); form("seq.divexact.ul", "exact", "Z", "u64"); form("seq.divexact.l", "exact", "Z", "i64")
+form("seq.trem.ul", "tr", "Z", "u64"); form("seq.divmod", "divmod")
+TABLE_FORMS = sorted(f for f in F if not f.startswith("gmp."))      # what coq/C02/Table.v must list, with the same kind and types
+# trusted layers run against the compiled code: raw conversions and configuration constants (operand d unused, always 1)
+form("cast.i64_u64", "c.u64", "i64", "one"); form("cast.u64_i64", "c.i64", "u64", "one"); form("cast.i64_i32", "c.i32", "i64", "one")
+form("cast.i64_i16", "c.i16", "i64", "one"); form("cast.u64_i32", "c.i32", "u64", "one"); form("cast.abs64", "c.abs", "i64s", "one")
+form("cast.neg64", "c.neg", "i64s", "one"); form("cast.i64_dbl", "c.dbl", "i64", "one"); form("cast.dbl_u64", "c.trunc16", "udblx", "one")
+for _k in CFG:
+    form(_k, _k, "one", "one")
+RANGES["one"] = (1, 1)
+def conv_name(f):
+    kind, nt, dt, ret = F[f]
+    return kind if ret is None else kind + ">" + ret
 
 # Site / input-class strings of the call forms that have (had) an entry in known_findings.json: the strings are
 # the keys of those entries, so they stay as they were recorded.  Every other form gets "Integer::<form>" and
@@ -297,6 +335,227 @@ _orig_load_known = vf.load_known
 vf.load_known = merged_known
 
 
+# ------------------------------------------------------------------ seed-independent limit grid (every run, every seed)
+LIMS = [2**7 - 1, 2**7, 2**8 - 1, 2**8, 2**15 - 1, 2**15, 2**16 - 1, 2**16, 2**24, 2**31 - 1, 2**31, 2**31 + 1, 2**32 - 1, 2**32, 2**32 + 1,
+        2**53, 2**63 - 1, 2**63, 2**63 + 1, 2**64 - 59, 2**64 - 1, 2**64, 2**64 + 1]
+RLIMS = [2**31 - 1, 2**31, 2**32 - 1, 2**32, 2**63 - 1, 2**63, 2**63 + 1, 2**64 - 2]
+
+def limit_grid(kind, nt, dt):
+    """(n, d) with |d| = 1, 2, 3 and at every word limit that the divisor's type can hold, against dividends 0, +-1, +-d,
+    k d +- 1, remainders |d|-1, |d|/2 and at the word limits (2^31-1 .. 2^64-2), single- and multi-limb quotients; both
+    signs of both operands.  For the word-DIVIDEND forms the roles are swapped."""
+    out = []
+    if nt != "Z":                                   # word / Integer, word % Integer
+        lo, hi = RANGES[nt]
+        for L in [0, 1, 2, 3] + LIMS:
+            for sn in (1, -1):
+                n = sn * L
+                if not (lo <= n <= hi):
+                    continue
+                a = abs(n)
+                for o in (1, 2, 3, a - 1, a, a + 1, a // 2, 2 * a + 1, 2**64 + 1, 2**63):
+                    for sd in (1, -1):
+                        if o > 0:
+                            out.append((n, sd * o))
+        return out
+    for L in [1, 2, 3] + LIMS:
+        for sd in (1, -1):
+            d = sd * L
+            if dt == "dblx":
+                d = fix_type(16 * d + sd * 5, dt)
+            elif dt in ("dbl",):
+                d = fix_type(d, dt)
+            if d == 0 or not clampfit(d, dt):
+                continue
+            a = abs(d) // 16 if dt == "dblx" else abs(d)
+            if a == 0:
+                continue
+            if kind == "exact":
+                os_ = [0] + [a * k for k in (1, 2, 3, 2**32, 2**63, 2**64 - 1, 2**64 + 1)]
+            else:
+                os_ = [0, 1, a - 1, a, a + 1, 2 * a - 1, 2 * a, 2 * a + 1, 3 * a - 1, 3 * a + 1, 2**32 * a + 1, 2**64 * a - 1, 2**64 * a + 1,
+                       (2**64 + 1) * a, 7 * a + (a - 1), 7 * a + a // 2]
+                for r in RLIMS:
+                    if r < a:
+                        os_ += [r, 5 * a + r, 2**64 * a + r]
+            for o in sorted(set(os_)):
+                for sn in ((1, -1) if o else (1,)):
+                    out.append((sn * o, d))
+    return out
+
+
+# ------------------------------------------------------------------ tie to the source text of VERIF_REPO (read on every run)
+MODEL_OF = {   # Gallina definition of coq/C02/Model.v  ->  C++ definition (name, parameter types) in gmp++_int_div.C / gmp++_int_mod.C
+    "divin_I": "divin(Integer,Integer)", "divin_l": "divin(Integer,int64_t)", "divin_ul": "divin(Integer,uint64_t)",
+    "div_I": "div(Integer,Integer,Integer)", "div_l": "div(Integer,Integer,int64_t)", "div_i": "div(Integer,Integer,int32_t)",
+    "div_ul": "div(Integer,Integer,uint64_t)",
+    "divexact_q_I": "divexact(Integer,Integer,Integer)", "divexact_q_ul": "divexact(Integer,Integer,uint64_t)",
+    "divexact_q_l": "divexact(Integer,Integer,int64_t)", "divexact_I": "divexact(Integer,Integer)",
+    "divexact_ul": "divexact(Integer,uint64_t)", "divexact_l": "divexact(Integer,int64_t)",
+    "op_diveq_I": "operator/=(Integer)", "op_diveq_ul": "operator/=(uint64_t)", "op_diveq_l": "operator/=(int64_t)",
+    "op_div_I": "operator/(Integer)", "op_div_ul": "operator/(uint64_t)", "op_div_l": "operator/(int64_t)",
+    "divmod_I": "divmod(Integer,Integer,Integer,Integer)", "divmod_l": "divmod(Integer,int64_t,Integer,int64_t)",
+    "divmod_ul": "divmod(Integer,uint64_t,Integer,uint64_t)",
+    "ceil_r": "ceil(Integer,Integer,Integer)", "floor_r": "floor(Integer,Integer,Integer)", "trunc_r": "trunc(Integer,Integer,Integer)",
+    "ceil_v": "ceil(Integer,Integer)", "floor_v": "floor(Integer,Integer)", "trunc_v": "trunc(Integer,Integer)",
+    "trem_I": "trem(Integer,Integer,Integer)", "crem_I": "crem(Integer,Integer,Integer)", "frem_I": "frem(Integer,Integer,Integer)",
+    "trem_ul": "trem(Integer,Integer,uint64_t)", "crem_ul": "crem(Integer,Integer,uint64_t)", "frem_ul": "frem(Integer,Integer,uint64_t)",
+    "trem_w": "trem(Integer,uint64_t)", "crem_w": "crem(Integer,uint64_t)", "frem_w": "frem(Integer,uint64_t)",
+    "modin_I": "modin(Integer,Integer)", "modin_ul": "modin(Integer,uint64_t)", "modin_l": "modin(Integer,int64_t)",
+    "mod_I": "mod(Integer,Integer,Integer)", "mod_l": "mod(Integer,Integer,int64_t)", "mod_ul": "mod(Integer,Integer,uint64_t)",
+    "op_modeq_I": "operator%=(Integer)", "op_modeq_ul": "operator%=(uint64_t)", "op_modeq_l": "operator%=(int64_t)",
+    "op_mod_I": "operator%(Integer)", "op_mod_ul": "operator%(uint64_t)", "op_mod_l": "operator%(int64_t)", "op_mod_dfrac": "operator%(double)",
+}
+FRIENDS = ["operator/(int32_t,Integer)", "operator/(int64_t,Integer)", "operator/(uint32_t,Integer)", "operator/(uint64_t,Integer)",
+           "operator%(int32_t,Integer)", "operator%(int64_t,Integer)", "operator%(uint32_t,Integer)", "operator%(uint64_t,Integer)"]
+CALLEE = {"op_mod_ul": "operator%", "div_l": "div"}          # model definitions that forward to another overload
+FORWARDERS = {   # inline forwarders of gmp++_int.h: Gallina definition -> (member, divisor type)
+    "op_div_u": ("operator/", "uint32_t"), "op_div_i": ("operator/", "int32_t"), "op_diveq_u": ("operator/=", "uint32_t"),
+    "op_diveq_i": ("operator/=", "int32_t"), "mod_i": ("mod", "int32_t"), "mod_u": ("mod", "uint32_t"),
+    "op_mod_u": ("operator%", "uint32_t"), "op_mod_i": ("operator%", "int32_t"), "op_mod_us": ("operator%", "uint16_t"),
+    "op_modeq_u": ("operator%=", "uint32_t"), "op_modeq_i": ("operator%=", "int32_t"),
+}
+CAST_C = {"to_u64": "uint64_t", "to_i64": "int64_t", "to_i32": "int32_t", "to_i16": "int16_t", "to_u32": "uint32_t"}
+DOM_WRAPPERS = ["div", "divin", "mod", "modin", "divmod", "divexact", "quo", "rem", "quoin", "remin", "quoRem"]
+
+def model_defs():
+    txt = open(os.path.join(vf.coq_dir(AREA), "Model.v")).read()
+    txt = re.sub(r"\(\*.*?\*\)", " ", txt, flags=re.S)
+    return {m.group(1): m.group(2) for m in re.finditer(r"Definition\s+(\w+)\b[^:=]*(?::[^:=]*)?:=(.*?)\.\s*(?=\n|$)", txt, flags=re.S)}
+
+def ptypes(params):
+    out = []
+    for prm in params.split(","):
+        toks = [t for t in re.sub(r"[&*]", " ", prm).split() if t != "const"]
+        if toks:
+            out.append(toks[0] if len(toks) == 1 else " ".join(toks[:-1]))
+    return ",".join(out)
+
+def cxx_defs(path, flags):
+    """function definitions of one .C file after the real preprocessor (so that #if __GIVARO_SIZEOF_LONG / __GIVARO_DEBUG
+    select what is compiled): key 'name(types)' -> body text"""
+    rc, out = vf.sh([vf.CXX] + vf.BASE_FLAGS + flags + ["-E", path], timeout=600)
+    if rc != 0:
+        return None, out[-2000:]
+    keep, own = [], False
+    for line in out.splitlines():
+        m = re.match(r'# \d+ "([^"]*)"', line)
+        if m:
+            own = os.path.abspath(m.group(1)) == os.path.abspath(path)
+            continue
+        if own:
+            keep.append(line)
+    txt = "\n".join(keep)
+    defs = {}
+    for m in re.finditer(r"(?:Integer\s*&?|int64_t|uint64_t|double)\s+(?:Integer::)?(operator\s*[/%]=?|\w+)\s*\(([^()]*)\)\s*(?:const)?\s*\{", txt):
+        i, depth = m.end(), 1
+        while i < len(txt) and depth:
+            depth += {"{": 1, "}": -1}.get(txt[i], 0)
+            i += 1
+        defs[re.sub(r"\s+", "", m.group(1)) + "(" + ptypes(m.group(2)) + ")"] = txt[m.end():i - 1]
+    return defs, ""
+
+def source_tie(chk):
+    """what the theorems assume about the SOURCE, re-read from VERIF_REPO on every run: which GMP primitive (and which other
+    overload) each modelled body calls, in which order; the casts of the inline forwarders; the callees and the branch order
+    of the IntegerDom wrappers; no division entry point of the anchor files without a model."""
+    tie = {"primitive_sequences_compared": 0, "forwarder_casts_compared": 0, "dom_wrappers_compared": 0, "mismatches": []}
+    md = model_defs()
+    src = os.path.join(vf.REPO, "src", "kernel", "gmp++")
+    defs = {}
+    for fn in ("gmp++_int_div.C", "gmp++_int_mod.C"):
+        d, err = cxx_defs(os.path.join(src, fn), vf.inc_flags())
+        if d is None:
+            if "[timeout" in err:
+                chk.notes.append("source tie inconclusive: preprocessing %s timed out" % fn)
+                tie["inconclusive"] = True
+                chk.cov["source_tie"] = tie
+                return
+            chk.broke("source tie: %s does not preprocess" % fn, err)
+            chk.cov["source_tie"] = tie
+            return
+        defs.update(d)
+    def bad(msg):
+        tie["mismatches"].append(msg)
+    for g, key in sorted(MODEL_OF.items()):
+        if key not in defs:
+            bad("%s: no definition %s in the source (signature changed or removed)" % (g, key)); continue
+        if g not in md:
+            bad("model definition %s missing" % g); continue
+        got = [re.sub(r"\s+|\(", "", t) for t in re.findall(r"\bmpz_\w+|operator\s*[%/]=?\s*\(|\bdiv\s*\(", defs[key])]
+        exp = [CALLEE.get(t, t) for t in re.findall(r"\bmpz_\w+|\bop_mod_ul\b|\bdiv_l\b", md[g])]
+        tie["primitive_sequences_compared"] += 1
+        if got != exp:
+            bad("%s calls %s in the source, the model body %s has %s" % (key, got, g, exp))
+        zs = ("isZero" in defs[key], "isZero" in md[g])
+        if zs[0] != zs[1]:
+            bad("%s: zero-dividend shortcut %s in the source, %s in the model" % (key, zs[0], zs[1]))
+    for key in FRIENDS:
+        if key not in defs:
+            bad("no definition %s in the source" % key)
+        elif re.sub(r"\s+", "", defs[key]) not in ("returnInteger(l)/n;", "returnInteger(l)%n;"):
+            bad("%s is no longer `return Integer(l) op n;`: %s" % (key, defs[key].strip()))
+    known = set(MODEL_OF.values()) | set(FRIENDS)
+    for key in sorted(defs):
+        if key not in known:
+            bad("division / remainder entry point %s of the source has no model" % key)
+    # inline forwarders of gmp++_int.h
+    hdr = open(os.path.join(src, "gmp++_int.h")).read()
+    hdr = re.sub(r"//[^\n]*|/\*.*?\*/", " ", hdr, flags=re.S)
+    inl = {}
+    for m in re.finditer(r"\b(operator\s*[/%]=?|mod)\s*\(([^()]*)\)\s*(?:const)?\s*\{\s*return\s+([^;{}]*);\s*\}", hdr):
+        inl[(re.sub(r"\s+", "", m.group(1)), ptypes(m.group(2)).split(",")[-1])] = m.group(3)
+    for g, key in sorted(FORWARDERS.items()):
+        if key not in inl:
+            bad("inline forwarder %s(%s) not found in gmp++_int.h" % key); continue
+        got = re.findall(r"\(\s*(u?int\d+_t)\s*\)", inl[key])
+        exp = [CAST_C[t] for t in re.findall(r"\bto_[ui]\d+\b", md.get(g, ""))]
+        tie["forwarder_casts_compared"] += 1
+        if got != exp:
+            bad("forwarder %s(%s): casts %s in the source, %s in the model body %s" % (key[0], key[1], got, exp, g))
+    for key, body in sorted(inl.items()):
+        if key not in FORWARDERS.values() and key[1] != "XXX":
+            bad("inline forwarder %s(%s) of gmp++_int.h has no model" % key)
+    # IntegerDom wrappers of givinteger.h
+    giv = open(os.path.join(vf.REPO, "src", "kernel", "integer", "givinteger.h")).read()
+    giv = re.sub(r"//[^\n]*|/\*.*?\*/", " ", giv, flags=re.S)
+    for w in DOM_WRAPPERS:
+        m = re.search(r"\b%s\s*\(([^()]*)\)\s*const\s*\{([^{}]*)\}" % w, giv)
+        if not m:
+            bad("IntegerDom::%s not found in givinteger.h" % w); continue
+        got = [a or b for a, b in re.findall(r"Integer::(\w+)\s*\(|\b(quo|modin)\s*\(", m.group(2))]
+        exp = [t[1] for t in re.findall(r"\b(dom_)?(divexact|divmod|divin|div|modin|mod|ceil|floor|quo)(?:_\w+)?\b", md.get("dom_" + w, ""))]
+        tie["dom_wrappers_compared"] += 1
+        if got != exp:
+            bad("IntegerDom::%s calls %s in the source, the model body dom_%s has %s" % (w, got, w, exp))
+    m = re.search(r"isDivisor\s*\([^()]*\)\s*const\s*\{(.*?)\n\s*\}", giv, flags=re.S)
+    if not m or re.sub(r"\s+", "", m.group(1)) != "Elementr;if(::Givaro::isZero(b))return::Givaro::isZero(a);return::Givaro::isZero(mod(r,a,b));":
+        bad("IntegerDom::isDivisor body changed: %s" % (m.group(1).strip() if m else None))
+    else:
+        tie["dom_wrappers_compared"] += 1
+    for msg in tie["mismatches"][:12]:
+        chk.broke("source tie: " + msg)
+    chk.cov["source_tie"] = tie
+
+
+def table_tie(chk, drv):
+    """the overload table the theorems quantify over (extracted from coq/C02/Table.v) against the forms this check drives"""
+    rc, out, err = vf.run_lines(drv, "TABLE\n", timeout=600)
+    if rc == 124:
+        chk.notes.append("overload-table comparison inconclusive: the model driver timed out")
+        return
+    rows = {}
+    for ent in (out[0].split(";") if out else []):
+        t = ent.split()
+        if len(t) == 4:
+            rows[t[0]] = tuple(t[1:])
+    mine = {f: (conv_name(f), F[f][1], F[f][2]) for f in TABLE_FORMS}
+    diff = [(f, rows.get(f), mine.get(f)) for f in sorted(set(rows) | set(mine)) if rows.get(f) != mine.get(f)]
+    chk.cov["overload_table"] = {"rows_in_Table.v": len(rows), "forms_driven_by_the_check": len(mine), "differences": len(diff)}
+    for f, a, b in diff[:10]:
+        chk.broke("overload table: form %s is %s in coq/C02/Table.v and %s in the check" % (f, a, b))
+
+
 def norm(line):
     return line.split()
 
@@ -317,16 +576,32 @@ def main(tier, replay=None):
                        "d != 0 everywhere (division by zero is outside the documented contract)",
                        "word-returning operator% overloads whose return type cannot hold the remainder (divisor > 2^63, 2^31, 2^15): expected value = the documented truncated remainder converted to the return type (C narrowing), theorem C02_percent_operators_narrow_return_wrap; operator%(double): (double)(int64_t) of it"]
     # 1. proofs
-    res = vf.coq_check_props(AREA)
-    chk.proof_result(res, AREA)
+    res = vf.coq_check_props(AREA, timeout=3000)
+    inconclusive = []
+    if not res["ok"] and "[timeout after" in res["log"]:
+        # a time-out of coqc under machine load says nothing about the theorems: recorded, not a violation
+        inconclusive.append("Coq build of coq/C02 timed out (machine load): proof obligations not re-checked in this run")
+        chk.cov["obligations"] += len(res["theorems"])
+    else:
+        chk.proof_result(res, AREA)
     # 2. executables
     drv, l1 = vf.ocaml_build(AREA) if os.path.exists(os.path.join(vf.coq_dir(AREA), "ocaml", "model.ml")) else (None, "extraction did not run")
     if drv is None:
         chk.broke("extracted model driver does not build", l1)
-    himpl, l2 = vf.build_harness("c02_divmod.C")
+    himpl, l2 = vf.build_harness("c02_divmod.C", timeout=3000)
     if himpl is None:
-        chk.broke("implementation harness does not compile against /repo", l2)
+        if "[timeout after" in l2:
+            inconclusive.append("compiling the implementation harness timed out (machine load): no case was run")
+            chk.notes += inconclusive
+            chk.cov["inconclusive_streams"] = inconclusive
+        else:
+            chk.broke("implementation harness does not compile against /repo", l2)
         return chk.finish()
+    # 2b. ties that need no case: the overload table of the theorems vs the forms driven here; the source text vs the model
+    if drv and not replay:
+        table_tie(chk, drv)
+    if not replay:
+        source_tie(chk)
     # 3. cases
     cases = []
     if replay:
@@ -343,6 +618,26 @@ def main(tier, replay=None):
         N, D = (7, 3) if tier == "quick" else (130, 20)
         for f in sorted(F):
             kind, nt, dt, ret = F[f]
+            if f.startswith("cfg."):
+                cases.append((f, 1, 1, "configuration constant"))
+                continue
+            if f.startswith("cast."):
+                lo, hi = RANGES[nt]
+                vs = set(edges(nt)) | {v for L in LIMS for v in (L, -L, L - 1, 1 - L) if lo <= v <= hi}
+                vs |= {v for v in (2**53 + 1, 2**53 + 3, 2**54 + 2, 2**54 + 6, -(2**53 + 1), 2**62 + 2**9, 2**62 + 3 * 2**9, 2**63 - 513,
+                                   2**63 - 511, 16 * (2**64 - 2**11) + 15, 31, 16, 15, 0) if lo <= v <= hi}      # rounding ties of (double)int64_t
+                for v in sorted(vs):
+                    v = fix_type(v, nt)
+                    if clampfit(v, nt):
+                        cases.append((f, v, 1, "conversion: limits (exhaustive)"))
+                for i in range(150 if tier == "quick" else 20000):
+                    cases.append((f, rand_val(rng, nt), 1, "conversion: random"))
+                continue
+            # the word limits (2^7 .. 2^64+1, +-1 around them) of divisor and remainder: the same list in every run
+            if not f.startswith("gmp.") or tier != "quick" or f in ("gmp.tdiv_ui", "gmp.tdiv_r_ui", "gmp.mod_ui", "gmp.tdiv_q_ui", "gmp.cdiv_r_ui", "gmp.fdiv_r_ui"):
+                for n, d in limit_grid(kind, nt, dt):
+                    if d != 0 and clampfit(n, nt) and clampfit(d, dt) and (kind != "exact" or n % d == 0):
+                        cases.append((f, n, d, "limit grid (exhaustive)"))
             # the limits of the divisor's (dividend's) word type against dividends (divisors) around its multiples, swept completely
             if dt != "Z" or nt != "Z":
                 t = dt if dt != "Z" else nt
@@ -379,12 +674,15 @@ def main(tier, replay=None):
                         if d != 0 and clampfit(n, nt) and clampfit(d, dt) and (kind != "exact" or n % d == 0):
                             cases.append((f, n, d, "small box (exhaustive)"))
             cnt = per if not f.startswith("gmp.") else max(120, per // 4)
+            if tier == "quick":
+                cnt = 160 if not f.startswith("gmp.") else 100
             for i in range(cnt):
                 n, d, cl = gen_pair(rng, kind, nt, dt, i)
                 cases.append((f, n, d, cl))
     for f, n, d, cl in cases:
         kind, nt, dt, ret = F[f]
         assert (d != 0 or kind == "isdiv") and clampfit(n, nt) and clampfit(d, dt), (f, n, d)
+        assert not f.startswith("seq.divexact") or n % d == 0
     all_cases = cases
     ncorr = 0
     nunspec = 0
@@ -396,9 +694,14 @@ def main(tier, replay=None):
         lines = impl_in.splitlines(True)
         iout, crashed, start = [], {}, 0
         while start < len(lines):          # a crash inside the library is a result too: locate the case, record it, go on
-            rc, o, ierr = vf.run_lines(himpl, "".join(lines[start:]), timeout=1500)
+            rc, o, ierr = vf.run_lines(himpl, "".join(lines[start:]), timeout=3000)
             iout += o
             if len(iout) >= len(lines):
+                break
+            if rc == 124 or "[timeout]" in (ierr or ""):
+                # our own tooling ran out of time (machine load): the rest of the chunk is an inconclusive stream, not a finding
+                inconclusive.append("implementation harness timed out after %d of %d cases of a chunk: the remaining cases were not compared" % (len(iout), len(lines)))
+                iout += ["NOT-RUN"] * (len(lines) - len(iout))
                 break
             if rc == 0:
                 chk.broke("implementation harness failed (rc=%s, %d/%d lines)" % (rc, len(iout), len(cases)), ierr)
@@ -413,8 +716,11 @@ def main(tier, replay=None):
         iout = iout[:len(lines)]
         mout = None
         if drv:
-            rc, mout, merr = vf.run_lines(drv, impl_in, timeout=1500)
-            if rc != 0 or len(mout) != len(cases):
+            rc, mout, merr = vf.run_lines(drv, impl_in, timeout=3000)
+            if rc == 124 or "[timeout]" in (merr or ""):
+                inconclusive.append("extracted model driver timed out after %d of %d cases of a chunk: no correspondence comparison for this chunk" % (len(mout), len(cases)))
+                mout = None
+            elif rc != 0 or len(mout) != len(cases):
                 chk.broke("model driver failed (rc=%s, %d/%d lines)" % (rc, len(mout), len(cases)), merr)
                 mout = None
         # 4. comparison: implementation vs oracle decides violations; implementation vs extracted model is the tie
@@ -457,6 +763,12 @@ def main(tier, replay=None):
                        "non-trivial = n != 0, |d| != 1 and d does not divide n (for divexact: |d| != 1, n != 0); distinct = (form, n, d)")
     chk.cov["traces_validated_against_impl"] = ncorr
     chk.cov["call_forms"] = len(F)
+    chk.cov["call_forms_of_givaro"] = len(TABLE_FORMS)
+    chk.cov["call_form_list"] = {f: "%s n:%s d:%s" % (conv_name(f), F[f][1], F[f][2]) for f in TABLE_FORMS}
+    chk.cov["destinations"] = "every destination-bearing form is executed from 4 initial destination values (21845, -7, 123456789012345678901234567890123, -(2^128+1); word destinations 0x5555, -7, INT64_MAX, INT64_MIN+1) and must return the same result"
+    if inconclusive:
+        chk.notes += inconclusive
+        chk.cov["inconclusive_streams"] = inconclusive
     chk.cov["double_results_that_needed_rounding"] = ROUNDED[0]
     chk.cov["distribution_by_form"] = dist_form
     chk.cov["distribution_by_class"] = dist_class
